@@ -98,11 +98,13 @@ STPairs == IF Thorough THEN (-3..3) \X (-3..3)
            ELSE { <<1,1>>, <<1,2>>, <<2,-1>>, <<-3,1>>, <<3,3>>, <<2,2>>, <<-2,-1>>, <<1,-1>>, <<0,2>>, <<3,-2>> }
 PowOK(h, s) == IPow(QNorm(h), Abs(s)) <= 2000          \* keeps every intermediate below 2^31
 
+CSmallSigned == { <<m * m - 1, sg * 2 * m, m * m + 1>> : m \in {8, 20, 50}, sg \in {1, -1} }     \* theta = +-2 atan(1/m)
+
 (* ------------------------------ test vectors ---------------------------------------- *)
 VARIABLES dummy
 InitE == /\ dummy = 0
          /\ \/ \E h \in HAll : tv = [op |-> "seedh", h |-> h]
-            \/ \E cs \in CSel : tv = [op |-> "seedc", cs |-> cs]
+            \/ \E cs \in CSel \cup CSmallSigned : tv = [op |-> "seedc", cs |-> cs]
 NextE == UNCHANGED dummy /\
   \/ /\ tv.op = "seedh"
      /\ LET h == tv.h cell == HCell(tv.h) IN
@@ -169,6 +171,13 @@ NextE == UNCHANGED dummy /\
               tv' = [op |-> "exp_se2", cs |-> cs, rho |-> rho, vr |-> SE2V(cs, rho), exp |-> RM(CMat(cs), cs[3])]
         \/ \E p \in {<<1,0>>, <<-2,1>>, <<3,-1>>} :
               tv' = [op |-> "log_se2", cs |-> cs, p |-> p, ur |-> SE2U(cs, p)]
+        (* the SE(2) angle is a real number, |theta| < 2 pi: the same (c, s) with the angle wrapped to the
+           other side, theta' = theta - 2 pi sgn(theta), |theta'| in [pi, 2 pi) -- V and V^-1 depend on
+           theta' itself (same formulas, theta' in place of theta); reaches |theta'| up to 2 pi - 0.04 *)
+        \/ \E rho \in {<<-2,1>>, <<3,-1>>} : cs[2] # 0 /\
+              tv' = [op |-> "exp_se2", cs |-> cs, rho |-> rho, vr |-> SE2V(cs, rho), exp |-> RM(CMat(cs), cs[3]), wrap |-> 1]
+        \/ \E p \in {<<-2,1>>, <<3,-1>>} : cs[2] # 0 /\
+              tv' = [op |-> "log_se2", cs |-> cs, p |-> p, ur |-> SE2U(cs, p), wrap |-> 1]
         \/ \E x \in {<<1,-2,0>>, <<3,1,1>>, <<0,0,0>>} : tv' = [op |-> "exp_rn", cs |-> cs, x |-> x]
         (* direct sums: so3 (+) r3 into SO3Quat x R3, and se2 (+) so3 (+) r3 into SE2 x SO3Mrp x R3 *)
         \/ \E h \in {<<1,1,0,0>>, <<-1,1,1,0>>, <<64,1,2,2>>, <<1,0,0,0>>}, x \in {<<3,1,1>>}, rho \in {<<-2,1>>} :
